@@ -103,4 +103,48 @@ PROPS = {
              "String column with rows that were never written. Distinct = hash of the decoded history.",
         assumptions=COMMON_ASSUME + ["strings never contain NUL"],
     ),
+    "C08": dict(
+        bin="h_tree", sub="c08", level="exploration",
+        technique="rapidcheck-generated API programs with invalid arguments; complete observable state (snapshot) compared before/after every call that threw",
+        level_text="generated programs of 5-80 public API calls over all entity kinds in which about a third of the calls carry one invalid "
+                   "argument of a class named in the property (duplicate/empty/slash name, empty type, target in another block / another "
+                   "file / deleted / uninitialised, wrong rank, offset outside the data, unsorted ticks, non-SI unit, non-positive interval, "
+                   "unsupported element type, mixed/wrong value types, row out of range, unknown id); whenever a call throws, the snapshot of "
+                   "the whole file (and of the foreign file) must equal the snapshot taken before the call",
+        level_note="one step of a program is exactly one mutating API call; a call that does not throw is outside this property; the snapshot "
+                   "reads everything through public getters (updated_at excluded)",
+        quick=dict(cases=150, size=400, workers=16, timeout=1800),
+        thorough=dict(cases=4000, size=400, workers=16, timeout=14400),
+        rule="tape -> program (see harness/prog.hpp, profile Reject). Non-trivial: at least one call was rejected in a state with at least 4 "
+             "entities. The evidence lists per rejection class how many rejected calls were checked. Distinct = hash of the decoded program.",
+        assumptions=COMMON_ASSUME,
+    ),
+    "C02": dict(
+        bin="h_tree", sub="c02", level="exploration",
+        technique="rapidcheck-generated API programs; snapshot before close compared with ReadOnly reopen, ReadWrite reopen and a reopen by another process",
+        level_text="generated programs of 5-80 in-contract API calls over all entity kinds (create, modify, link, unlink, delete, nested sources "
+                   "and sections, data, dimensions, properties, frames, flush) with reopen points inside the history; at every reopen point and "
+                   "at the end the snapshot taken before close() must equal the snapshot after a ReadOnly reopen, after a ReadWrite reopen and "
+                   "(40% of the cases) the snapshot printed by a freshly started process",
+        level_note="snapshot = every getter of every entity incl. all stored data, ids, created_at, links and order; updated_at excluded",
+        quick=dict(cases=150, size=400, workers=16, timeout=1800),
+        thorough=dict(cases=4000, size=400, workers=16, timeout=14400),
+        rule="tape -> program (profile Valid). Non-trivial: at least one successful delete/unlink, entities of at least 4 kinds besides the file, "
+             "and at least one link alive at the final close. Distinct = hash of the decoded program.",
+        assumptions=COMMON_ASSUME,
+    ),
+    "C04": dict(
+        bin="h_tree", sub="c04", level="exploration",
+        technique="rapidcheck-generated API programs; after every successful delete the snapshot must equal prune(previous snapshot, victim)",
+        level_text="generated programs with linking (references, features, positions/extents, group members, sources, metadata, section links, "
+                   "data-frame dimensions; also across reopen) and deletes of every entity kind by name, id or handle; after each successful "
+                   "delete the new snapshot must equal the old one with the victim (and its subtree) removed and every link to a removed id "
+                   "gone - nothing else may differ - and the handle held from before reports itself invalid",
+        level_note="prune is a pure function on the snapshot tree; deleteDimensions has no victim id and is covered by C13",
+        quick=dict(cases=150, size=400, workers=16, timeout=1800),
+        thorough=dict(cases=4000, size=400, workers=16, timeout=14400),
+        rule="tape -> program (profile Valid). Non-trivial: a victim that was referenced by holders of at least 2 different kinds, or whose "
+             "subtree holds at least 3 entities. Distinct = hash of the decoded program.",
+        assumptions=COMMON_ASSUME,
+    ),
 }
